@@ -5,6 +5,7 @@ handled tables: IsoVerif/Model/C06Inventory.lean, regenerated inventories: IsoVe
 -/
 import IsoVerif.Model.Schedule
 import IsoVerif.Lemmas.Schedule
+import IsoVerif.Lemmas.C06RefGene
 
 namespace IsoVerif.Props.C06
 open IsoVerif.Model.C06 IsoVerif.Lemmas.C06
@@ -114,5 +115,25 @@ theorem hash_independent_groups_header (A B : List (List String)) (perm perm' : 
 /-- non-vacuity: two different dump orders and chromosome-to-worker splits of the same groups -/
 example : groupsHeader [["b", "a"], ["c", "a"]] id = ["a", "b", "c"] ∧
     groupsHeader [["a", "c"], [], ["b"]] List.reverse = ["a", "b", "c"] := by decide
+
+/-- `select_reference_gene`: the count dict is filled while iterating sets of gene ids (its insertion order follows
+    the hash order), then sorted by `(count, gene id)` descending — a total order on the items.  Whatever the
+    iteration order of every `intron_genes[intron]` (any permutation of the visited ids), the same gene is chosen. -/
+theorem hash_independent_reference_gene (iter iter' : List (List String)) (strandOk : String → Bool)
+    (h : iter.flatten.Perm iter'.flatten) :
+    selectReferenceGene iter strandOk = selectReferenceGene iter' strandOk := by
+  unfold selectReferenceGene
+  rw [isort_eq_of_perm refGeneBefore refGeneBefore_trans refGeneBefore_total refGeneBefore_antisymm (geneCounts_perm h)]
+
+/-- non-vacuity: two iteration orders of the same sets -/
+example : [["Gb", "Ga"], ["Ga", "Gb"], ["Gc"]].flatten.Perm [["Ga", "Gb"], ["Gb", "Ga"], ["Gc"]].flatten ∧
+    selectReferenceGene [["Gb", "Ga"], ["Ga", "Gb"], ["Gc"]] (fun _ => true) = some "Gb" := by decide
+
+/-- with the gene id dropped from the sort key (count only, stable sort) a tie is settled by the dict order, i.e. by
+    the iteration order of the set -/
+theorem reference_gene_buggy_witness :
+    [["Ga", "Gb"]].flatten.Perm [["Gb", "Ga"]].flatten ∧
+    selectReferenceGeneBuggy [["Ga", "Gb"]] (fun _ => true) ≠ selectReferenceGeneBuggy [["Gb", "Ga"]] (fun _ => true) := by
+  decide
 
 end IsoVerif.Props.C06
